@@ -31,11 +31,20 @@ func c12JWT(n int) string {
 	return t
 }
 
+// c12Tok builds token value v: bit 0 = access token present, bit 1 = expiry present, bit 2 = refresh token
+// present; every variant has its own ID token and member values, so a stale member of an earlier write shows.
 func c12Tok(v int) *oidc.TokenResponse {
-	if v == 1 {
-		return &oidc.TokenResponse{IDToken: c12JWT(1), AccessToken: "at1", RefreshToken: "rt1", AccessTokenExpiresAt: time.Date(2031, 2, 3, 4, 5, 6, 7000, time.UTC)}
+	t := &oidc.TokenResponse{IDToken: c12JWT(v)}
+	if v&1 != 0 {
+		t.AccessToken = fmt.Sprintf("at%d", v)
 	}
-	return &oidc.TokenResponse{IDToken: c12JWT(2)} // no access token, refresh token or expiry: stale members must go
+	if v&2 != 0 {
+		t.AccessTokenExpiresAt = time.Date(2031, 2, 3, 4, 5, 6+v, 7000, time.UTC)
+	}
+	if v&4 != 0 {
+		t.RefreshToken = fmt.Sprintf("rt%d", v)
+	}
+	return t
 }
 
 func c12Auth(v int) *oidc.AuthorizationState {
@@ -62,15 +71,15 @@ func authEq(a, b *oidc.AuthorizationState) bool {
 	return *a == *b
 }
 
-var c12Ops = []string{"SetTok1", "SetTok2", "GetTok", "SetAuth1", "SetAuth2", "GetAuth", "ClearAuth", "Remove"}
+var c12Ops = []string{"SetTok0", "SetTok1", "SetTok2", "SetTok3", "SetTok4", "SetTok5", "SetTok6", "SetTok7", "GetTok", "GetTok", "SetAuth1", "SetAuth2", "GetAuth", "GetAuth", "ClearAuth", "Remove"}
 
 // c12Alphabet16: the 16-letter alphabet of the exhaustive part (ops on id a; a subset on id b)
 var c12Alphabet16 = []struct {
 	op string
 	id string
 }{
-	{"SetTok1", "a"}, {"SetTok2", "a"}, {"GetTok", "a"}, {"SetAuth1", "a"}, {"SetAuth2", "a"}, {"GetAuth", "a"}, {"ClearAuth", "a"}, {"Remove", "a"},
-	{"SetTok1", "b"}, {"GetTok", "b"}, {"SetAuth1", "b"}, {"GetAuth", "b"}, {"ClearAuth", "b"}, {"Remove", "b"}, {"SetTok2", "b"}, {"SetAuth2", "b"},
+	{"SetTok7", "a"}, {"SetTok0", "a"}, {"SetTok1", "a"}, {"SetTok4", "a"}, {"GetTok", "a"}, {"SetAuth1", "a"}, {"SetAuth2", "a"}, {"GetAuth", "a"}, {"ClearAuth", "a"}, {"Remove", "a"},
+	{"SetTok7", "b"}, {"GetTok", "b"}, {"SetAuth1", "b"}, {"GetAuth", "b"}, {"ClearAuth", "b"}, {"Remove", "b"},
 }
 
 type c12World struct {
@@ -137,7 +146,7 @@ func (w *c12World) apply(op, id string, replica int) {
 	}
 	sig := func(s string) string { return w.kind + ":" + s }
 	switch op {
-	case "SetTok1", "SetTok2":
+	case "SetTok0", "SetTok1", "SetTok2", "SetTok3", "SetTok4", "SetTok5", "SetTok6", "SetTok7":
 		v := int(op[6] - '0')
 		if err := st.SetTokenResponse(ctx, id, c12Tok(v)); err != nil {
 			c.Violation(sig("write-error"), "%s(%s): %v", op, id, err)
